@@ -81,7 +81,7 @@ CHECKS = {
          "Exploration: 5k (quick) / 40k (thorough) generated dictionaries + 45 fixed ones, ~650k entry scenarios per quick run, with none/lsft/rsft/ralt held, three smart-space settings, tails, non-chord typing and too-slow chords. Four structural classes of follow-up chords are listed known findings, each limited to the outcome its defect predicts; the erase-counter defect this check found was repaired in /repo.",
          "output-character-mappings not generated; follow-ups whose proper subset is itself a top-level chord are skipped as ambiguous in the permutation family; with shift held comparison is case-insensitive.",
          "DESIGN.md §4 C20"),
- "C02": ("crash oracle (panic / abort / stack-overflow / watchdog monitor) over grammar-generated accepted configs x hostile histories; overflow-checked and ASan lanes in thorough",
+ "C02": ("crash oracle (panic / abort / stack-overflow / watchdog monitor) over grammar-generated accepted configs x hostile histories; overflow-checked lane on every 4th case in quick; overflow-checked, ASan and valgrind-memcheck lanes in thorough",
          "Exploration: every action kind in every placement context systematically, then thousands of random full-grammar configurations, each driven by hostile and consistent histories on the real Kanata object in worker processes whose deaths and panics are attributed to the case. Held = no crash on anything generated; no claim about configurations or histories not generated.",
          "Trusted: the simulated-output backend; the harness' process supervision. Excluded: cmd, clipboard, sleeps > 2 ms. Bounded work per step only via a wall-clock watchdog.",
          "DESIGN.md §4 C02, §3.2"),
